@@ -14,6 +14,7 @@ CONSTANTS
  InlineData = FALSE
  Conc = 3
  Probes = FALSE
+ Exts = {FALSE}
 INIT Init
 NEXT Next
 VIEW View
